@@ -477,6 +477,9 @@ func (s *adsStreamImpl) recv(stream clients.Stream) bool {
 			// know that it's invalid.  But we shouldn't ACK either, because we
 			// don't know that it is valid.
 			s.logger.Warningf("%v", nackErr)
+			// Nobody will consume this response: release flow control, or the
+			// next iteration would wait forever.
+			s.fc.setPending(false)
 			continue
 		}
 
